@@ -259,8 +259,8 @@ var docTexts = []string{
 }
 var docScripts = []string{"(@.name == 'Pete')", "(@.x == Nothing)", "(@.x has false)", "(@.x exists false)", "(@.text ~= /(?i)expected/ && !(@.text ~= /(?i)notexpected/))"}
 
-var alphaFull = []byte("$@.*[]()'\"\\,:?!=<>&|~+-/ 01aux;{}#\x00\n\t\x7f\x80\xff")
-var alphaSmall = []byte("$@.*[]()'\"\\,:?!=<& -/ 0a\x00\t\x80")
+var alphaFull = []byte("$@.*[]()'\"\\,:?!=<>&|~+-/ 01aux;{}#`\x00\n\t\x7f\x80\xff")
+var alphaSmall = []byte("$@.*[]()'\"\\,:?!=<& -/ 0a\x00\t`\x80")
 
 func mutate(nbases int, alpha []byte, seed int64) {
 	cs := readCases()
